@@ -318,6 +318,7 @@ func Run(c Case) (Result, error) {
 				continue
 			}
 			deadline := time.Now().Add(Settle)
+			softDeadline := time.Now().Add(500 * time.Millisecond)
 			for {
 				has := false
 				for _, vi := range r.mon.VerifInformers() {
@@ -326,9 +327,15 @@ func Run(c Case) (Result, error) {
 					}
 				}
 				if has && liveDyn[ns] {
+					// informers exist: give their watch a moment to be registered (softly: an informer that is shared
+					// with an earlier incarnation of the namespace keeps its old watch and registers no new one)
 					watchMu.Lock()
-					has = watchSeq[ns] > watchBase[ns]
+					watching := watchSeq[ns] > watchBase[ns]
 					watchMu.Unlock()
+					if !watching && time.Now().Before(softDeadline) {
+						time.Sleep(time.Millisecond)
+						continue
+					}
 				}
 				if has == liveDyn[ns] {
 					break
